@@ -232,6 +232,46 @@ def native_replay_index(fn, index, size, wd, uninitialised=False):
     return (rc != 0), text
 
 
+DOC_ELEM = '''<?xml version="1.0" encoding="UTF-8"?>
+<scxml xmlns="http://www.w3.org/2005/07/scxml" initial="s0" datamodel="promela" version="1.0">
+  <datamodel>
+    <data id="arr" type="int[%(size)d]">%(init)s</data>
+  </datamodel>
+  <state id="s0">
+    <onentry>
+      <assign location="arr[%(index)d]" expr="77"/>
+      <raise event="done"/>
+    </onentry>
+    <transition event="error.execution" target="fail"/>
+    <transition event="done" cond="%(cond)s" target="pass"/>
+    <transition event="*" target="fail"/>
+  </state>
+  <final id="pass"/>
+  <final id="fail"/>
+</scxml>
+'''
+
+
+def native_replay_elem(index, wd):
+    """write arr[index] of an array whose value list has exactly `index` elements (declared size index+1, initialised with
+    index values), then read back: arr[index] == 77 and the element before it unchanged"""
+    exe, err = build_native()
+    if not exe:
+        return False, 'cannot build test-state-pass: ' + err
+    index = min(max(index, 0), 6)
+    init = '[' + ','.join(str(k + 1) for k in range(index)) + ']' if index > 0 else ''
+    cond = 'arr[%d] == 77' % index + (' &amp;&amp; arr[%d] == %d' % (index - 1, index) if index > 0 else '')
+    path = os.path.join(wd, 'replay_elem.scxml')
+    os.makedirs(wd, exist_ok=True)
+    open(path, 'w').write(DOC_ELEM % {'size': index + 1, 'init': init, 'index': index, 'cond': cond})
+    try:
+        p = subprocess.run(['bash', '-c', 'ulimit -v 3000000; exec "$0" "$1"', exe, path], capture_output=True, text=True, timeout=120, errors='replace')
+        rc, tail = p.returncode, (p.stdout + p.stderr).strip().splitlines()[-2:]
+    except subprocess.TimeoutExpired:
+        rc, tail = 'timeout', []
+    return (rc != 0), 'document %s: int arr[%d] holding %d values, arr[%d] = 77, then %s expected; test-state-pass exit=%s %s' % (path, index + 1, index, index, cond.replace('&amp;', '&'), rc, ' / '.join(tail)[-200:])
+
+
 def witness(trace):
     w = {}
     for st in trace or []:
@@ -346,6 +386,9 @@ def run(tier):
                 # reachable through the promela datamodel with a declared but uninitialised array (its value list is empty): read arr[index]
                 ridx = min(idx_ if idx_ is not None else 1, 6)
                 ok, text = native_replay_index('getVariable', ridx, ridx + 1, wd, uninitialised=True)
+                if not ok:
+                    ok2, text2 = native_replay_elem(ridx, wd)
+                    ok, text = ok2, text + ' || ' + text2
                 payload = {'property': 'C17', 'engine': 'pmlarms', 'obligation': f['property'], 'description': f['description'], 'token': tok, 'arity': 2,
                            'list_length': n_, 'index': idx_, 'v1': ridx, 'v2': ridx + 1, 'native_replay_output': text}
                 path = common.write_replay('C17', '%s_%s' % (r['name'], f['property']), payload)
@@ -381,6 +424,9 @@ def replay(path):
     d = json.load(open(path))
     if d['token'] == 'ELEM':
         ok, text = native_replay_index('getVariable', d['v1'], d['v2'], os.path.join(common.WORK, 'pml'), uninitialised=True)
+        if not ok:
+            ok, t2 = native_replay_elem(d['v1'], os.path.join(common.WORK, 'pml'))
+            text += ' || ' + t2
     elif d['token'].startswith('INDEX_'):
         ok, text = native_replay_index(d['token'][len('INDEX_'):], d['v1'], d['v2'], os.path.join(common.WORK, 'pml'))
     else:
